@@ -180,5 +180,55 @@ func oracleC15(c Case, r *Rng) []string {
 			v = append(v, fmt.Sprintf("concurrent call %d differs from the same call run alone: %s", i, diffLayouts(ref[i], got[i])))
 		}
 	}
+	if len(v) > 0 {
+		return v
+	}
+	// the same calls once more, now with Option VALUES that all goroutines share (a caller builds its options once
+	// and reuses them): one WithNodeSize value for a partial size map, one routing and one positioning value; what
+	// differs per call is the source and a fixed size given as a fresh option. An Option that keeps state between the
+	// calls it is applied in shows here.
+	partial := map[string]graph.Size{}
+	ids := c.NodeIDs()
+	for i, id := range ids {
+		if i%2 == 0 {
+			partial[id] = graph.Size{W: float64(8 * (1 + i%5)), H: float64(8 * (1 + i%3))}
+		}
+	}
+	shared := []autog.Option{autog.WithNodeSize(partial), autog.WithEdgeRouting(autog.EdgeRoutingPolyline),
+		autog.WithPositioning(autog.PositioningSinkColoring), autog.WithNodeSpacing(16), autog.WithLayerSpacing(24)}
+	call := func(i int) (out graph.Layout, err error) {
+		defer func() {
+			if rec := recover(); rec != nil {
+				err = fmt.Errorf("panic: %v", rec)
+			}
+		}()
+		opts := append([]autog.Option{autog.WithNodeFixedSize(float64(8*(i+2)), float64(8*(i+1)))}, shared...)
+		return autog.Layout(graph.EdgeSlice(cloneEdges(cases[i].Edges)), opts...), nil
+	}
+	for i := range cases {
+		if ref[i], errs[i] = call(i); errs[i] != nil {
+			return []string{"Layout did not return: " + firstLines(errs[i].Error(), 6)}
+		}
+	}
+	start = make(chan struct{})
+	for i := range cases {
+		wg.Add(1)
+		go func(i int) {
+			defer wg.Done()
+			<-start
+			for k := 0; k < 3; k++ {
+				got[i], errs[i] = call(i)
+			}
+		}(i)
+	}
+	close(start)
+	wg.Wait()
+	for i := range cases {
+		if errs[i] != nil {
+			v = append(v, fmt.Sprintf("concurrent call %d (shared option values) failed: %s", i, firstLines(errs[i].Error(), 4)))
+		} else if !reflect.DeepEqual(ref[i], got[i]) {
+			v = append(v, fmt.Sprintf("concurrent call %d (shared option values) differs from the same call run alone: %s", i, diffLayouts(ref[i], got[i])))
+		}
+	}
 	return v
 }
